@@ -374,6 +374,12 @@ class Ctx:
         self.pc.append(t)
         self.solver.add(t)
 
+    def assume_checked(self, cond):
+        """assume, and cut the path at once when the path condition became unsatisfiable."""
+        self.assume(cond)
+        if self.prune and self._check() == z3.unsat:
+            raise Infeasible()
+
     def _check(self, *extra):
         t0 = time.time()
         r = self.solver.check(*extra)
